@@ -50,8 +50,10 @@ for t in ITY:
     add('fill_' + t, [(c, 1), ('int', 2)], [(c, 2)], 'o[0] = glm::bitfieldFillOne(a[0], b[0], b[1]); o[1] = glm::bitfieldFillZero(a[0], b[0], b[1]);', fl, '0 <= first, 0 <= count, first + count <= %d' % W, known=['KF-C20-bitfieldFill-first-width'])
     # ext/scalar_integer + gtc/round
     pos = (lambda i, W=W: [i[0][0] > 0, i[0][0] <= (1 << (W - 2))]) if sg else (lambda i, W=W: [i[0][0] != 0, z3.ULE(i[0][0], 1 << (W - 1))])
-    add('pow2_' + t, [(c, 1)], [('bool', 1), (c, 5)], 'o[0] = glm::isPowerOfTwo(a[0]); o2[0] = glm::nextPowerOfTwo(a[0]); o2[1] = glm::prevPowerOfTwo(a[0]); o2[2] = glm::ceilPowerOfTwo(a[0]); o2[3] = glm::floorPowerOfTwo(a[0]); o2[4] = glm::roundPowerOfTwo(a[0]);',
-        pos, 'x > 0 and the next power of two representable')
+    add('pow2_' + t, [(c, 1)], [(c, 2)], 'o[0] = glm::nextPowerOfTwo(a[0]); o[1] = glm::ceilPowerOfTwo(a[0]);', pos, 'x > 0 and the next power of two representable')
+    add('pow2f_' + t, [(c, 1)], [('bool', 1), (c, 2)], 'o[0] = glm::isPowerOfTwo(a[0]); o2[0] = glm::prevPowerOfTwo(a[0]); o2[1] = glm::floorPowerOfTwo(a[0]);', (lambda i: [i[0][0] > 0]) if sg else (lambda i: [i[0][0] != 0]), 'all x > 0')
+    add('pow2r_' + t, [(c, 1)], [(c, 1)], 'o[0] = glm::roundPowerOfTwo(a[0]);', (lambda i, W=W: [i[0][0] > 0, i[0][0] < 3 * (1 << (W - 3))]) if sg else (lambda i, W=W: [i[0][0] != 0, z3.ULT(i[0][0], 3 * (1 << (W - 2)))]),
+        'x > 0 and the nearest power of two representable (x < 1.5 * 2^%d)' % (W - 2 if sg else W - 1))
     def mulpre(i, W=W, sg=sg):
         x, m = i[0][0], i[0][1]; X = sx(x, W + 2) if sg else zx(x, W + 2); M = sx(m, W + 2) if sg else zx(m, W + 2)
         MAX = (1 << (W - 1)) - 1 if sg else (1 << W) - 1
